@@ -51,7 +51,18 @@ class SearchTerms:
     def __str__(self) -> str:
         """Get a String representation of this Search Term."""
         if self.method == PathSearchMethods.REGEX:
-            safe_term = "/{}/".format(self.term.replace("/", r"\/"))
+            # The parser captures a RegEx verbatim up to its delimiter and
+            # offers no way to escape the delimiter, so employ the first
+            # delimiter which does not appear within the RegEx.
+            delim = None
+            for candidate in "/|#@,;:_-":
+                if candidate not in self.term:
+                    delim = candidate
+                    break
+            if delim is None:
+                safe_term = "/{}/".format(self.term.replace("/", r"\/"))
+            else:
+                safe_term = "{}{}{}".format(delim, self.term, delim)
         else:
             # Replace unescaped spaces with escaped spaces
             safe_term = r"\ ".join(
